@@ -48,6 +48,7 @@ Proof.
   destruct (nth_n pad_right (8 - count - bit)) as [pr2|]; [|discriminate].
   destruct (N.lor ob pl =? 255); [|discriminate]. cbn [negb].
   destruct (N.leb_spec (bit + count) 8); [|lia].
+  destruct (N.leb_spec 8 (8 - bit - count)) as [?|_]; [lia|].
   inversion Hw; subst nb. rewrite Nat2N.id, upd_app. reflexivity.
 Qed.
 
@@ -65,6 +66,8 @@ Proof.
   destruct (nth_n pad_right (8 - (count - (8 - bit)))) as [pr2|]; [|discriminate].
   destruct (N.lor ob pl =? 255); [|discriminate]. cbn [negb].
   destruct (N.leb_spec (bit + count) 8); [lia|].
+  destruct (N.leb_spec 8 (count - (8 - bit))) as [?|_]; [lia|].
+  destruct (N.leb_spec 8 (8 - (count - (8 - bit)))) as [?|_]; [lia|]. cbn [orb].
   inversion Hw; subst n0 n1. rewrite Nat2N.id, upd_app.
   replace (N.to_nat (N.of_nat (length pre) + 1)) with (length (pre ++ [N.land (N.lor ob pr1) (N.lor (N.shiftr value (count - (8 - bit))) pl)])).
   2:{ rewrite app_length. cbn [length]. lia. }
